@@ -731,11 +731,28 @@ def probe_files(ctx, mapping):
     """The file layer (migrate_v1_to_v2(directory) = what `d42 migrate` runs): every .py file it rewrites is,
     read back the way Python reads it (PEP 263 cookie / BOM honoured), the module it was with only the imports
     rewritten; files it does not handle and files in hidden / __pycache__ directories stay byte-identical."""
+    import shutil
+    base = os.path.join(ctx.workdir, "c19_files")
+    shutil.rmtree(base, ignore_errors=True)
+    # the same tree under several spellings of the directory argument: what is skipped is decided by the names INSIDE the
+    # tree, never by how the caller happens to reach it
+    layouts = [("absolute path", os.path.join(base, "a", "proj"), None, None),
+               ("below a hidden ancestor", os.path.join(base, "b", ".cache", "checkout", "proj"), None, None),
+               ("relative path with ..", os.path.join(base, "c", "proj"), os.path.join(base, "c", "elsewhere"), os.path.join("..", "proj")),
+               ("a directory whose own name starts with a dot", os.path.join(base, "d", ".proj"), None, None),
+               ("relative, trailing separator", os.path.join(base, "e", "proj"), os.path.join(base, "e"), "proj" + os.sep),
+               ("below an ancestor named __pycache__", os.path.join(base, "f", "__pycache__", "proj"), None, None)]
+    n = 0
+    for label, root, cwd, arg in layouts:
+        n += _probe_layout(ctx, mapping, label, root, cwd, arg)
+    shutil.rmtree(base, ignore_errors=True)
+    return n
+
+
+def _probe_layout(ctx, mapping, label, root, cwd, arg):
     import contextlib
     import shutil
     from d42.migration.migrate_v1_to_v2 import migrate_v1_to_v2
-    root = os.path.join(ctx.workdir, "c19_files")
-    shutil.rmtree(root, ignore_errors=True)
     body = 'from district42 import schema, optional\nCITY = "K\u00f6ln \u2013 \u00e9t\u00e9"\n\n\ndef f():\n    return schema.str\n'
     ascii_body = 'from district42 import schema\nfrom valera import validate\nX = schema.int\n'
     files = {
@@ -757,23 +774,33 @@ def probe_files(ctx, mapping):
         os.makedirs(os.path.dirname(path), exist_ok=True)
         with open(path, "wb") as f:
             f.write(data)
+    old_cwd = os.getcwd()
+    if cwd is not None:
+        os.makedirs(cwd, exist_ok=True)
+        os.chdir(cwd)
     with contextlib.redirect_stdout(io.StringIO()), contextlib.redirect_stderr(io.StringIO()):
         try:
-            migrate_v1_to_v2(root)
+            migrate_v1_to_v2(arg if arg is not None else root)
             crash = None
         except Exception as e:  # noqa
             crash = e
+        finally:
+            os.chdir(old_cwd)
     if crash is not None:
-        ctx.violation(f"migrate_v1_to_v2(directory) raised {type(crash).__name__}", {"kind": "files", "observed": repr(crash)})
+        ctx.violation(f"migrate_v1_to_v2(directory) raised {type(crash).__name__}", {"kind": "files", "directory": label, "observed": repr(crash)})
         return 0
     n = 0
     for rel, data in files.items():
         with open(os.path.join(root, rel), "rb") as f:
             now = f.read()
         n += 1
-        rp = {"kind": "files", "file": rel, "before_bytes": repr(data)[:300], "after_bytes": repr(now)[:300]}
+        rp = {"kind": "files", "directory": f"{label}: migrate_v1_to_v2({(arg if arg is not None else root)!r})", "file": rel,
+              "before_bytes": repr(data)[:300], "after_bytes": repr(now)[:300]}
         untouchable = rel.startswith(".hidden/") or "__pycache__" in rel or not rel.endswith(".py") or rel == "nothing.py"
         if now == data:
+            if not untouchable and rel in ("plain.py", "utf8.py", "pkg/inner/deep.py", "crlf.py", "no_newline.py"):
+                ctx.violation(f"the migration left {rel} untouched although it imports mapped v1 names ({label})",
+                              dict(rp, expected="the v1 imports rewritten (rewrite_imports does rewrite this source)"))
             continue
         if untouchable:
             ctx.violation(f"the migration changed a file it must leave alone: {rel}", rp)
@@ -786,7 +813,6 @@ def probe_files(ctx, mapping):
         why = compare_bodies(before_tree.body, after_tree.body, mapping)
         if why:
             ctx.violation(f"the migrated file {rel} is not the module it was with its imports rewritten: {why}", rp)
-    shutil.rmtree(root, ignore_errors=True)
     return n
 
 
